@@ -251,6 +251,8 @@ func ApplyFuncIfNoError(ctx sdk.Context, f func(ctx sdk.Context) error) (err err
 		}
 	}()
 	cacheCtx, writeCache := ctx.CacheContext()
+	defer verifStepExit()
+	verifStepEnter()
 	err = f(cacheCtx)
 	if err == nil {
 		// write state to the underlying multi-store
